@@ -364,8 +364,11 @@ def adev_param_agreement(ctx, rule="SIB-estimator-parameterisation"):
             raise AnalysisError(f"anchor vanished: adev.{cls}")
         meths = {f.name: f for f in cnode.body if isinstance(f, ast.FunctionDef)}
         construct = f"adev.{cls}"
-        sw = meths.get("sample_with_key")
-        sm = meths.get("sample")
+        # own or inherited from a repo base class
+        sw = meths.get("sample_with_key") or ctx.p.class_member(cnode, "sample_with_key", mod)
+        sm = meths.get("sample") or ctx.p.class_member(cnode, "sample", mod)
+        sw = sw if isinstance(sw, ast.FunctionDef) else None
+        sm = sm if isinstance(sm, ast.FunctionDef) else None
         if sw is None or sm is None:
             ctx.bad(rule, construct, "sample and sample_with_key defined", "missing", f"{mod.path}:{cnode.lineno}")
             continue
